@@ -116,6 +116,7 @@ func runC17(a *A) {
 	a.Rule("aggstate/fresh-group", 2, func() {
 		fn := a.Func("window", "newGroupState")
 		n := 0
+		filled := map[string]bool{}
 		allInstrs(fn, func(in ssa.Instruction) {
 			mu, ok := in.(*ssa.MapUpdate)
 			if !ok {
@@ -129,12 +130,33 @@ func runC17(a *A) {
 				}
 			}
 			n++
+			// which of the two maps of the group: by the field, or by the field the fresh map is stored into
+			kind := ""
+			if t.Kind == "field" && t.Field != nil {
+				kind = t.Field.Name()
+			} else if mm, isMM := mu.Map.(*ssa.MakeMap); isMM {
+				for _, r := range *mm.Referrers() {
+					if st, isSt := r.(*ssa.Store); isSt && st.Val == ssa.Value(mm) {
+						if fa, isFA := st.Addr.(*ssa.FieldAddr); isFA {
+							kind = fieldVarOf(fa).Name()
+						}
+					}
+				}
+			}
+			filled[kind] = true
 			c, isCall := mu.Value.(*ssa.Call)
 			ok2 := isCall && c.Call.IsInvoke() && c.Call.Method.Name() == "New"
 			a.Check(ok2, fname(fn)+"#accumulator-is-new", in.Pos(), "each group accumulator is prototype.New()", "a group's accumulator is "+TermOf(mu.Value, nil).String()+", not a new instance: all groups would share the prototype's state")
 		})
 		if n == 0 {
 			a.Und(fname(fn)+"#accumulator-is-new", fn.Pos(), "no accumulator map writes found")
+		}
+		// every group owns an instance of every aggregate from its first row on: an aggregate that is
+		// created only when a row contributes a value reports "missing" where COUNT over no input is 0,
+		// and TRIGGER WHEN COUNT(x) = 0 never holds
+		for _, k := range []string{"outputAggs", "triggerAggs"} {
+			a.Check(filled[k], fname(fn)+"#instances-at-creation:"+k, fn.Pos(), "newGroupState creates the group's "+k+" instances",
+				"newGroupState does not create the instances of "+k+": an aggregate without input is missing (NULL) instead of its empty value (COUNT = 0), so a predicate over it is decided differently from the definition of the aggregate")
 		}
 	})
 	a.Rule("shape/trigger-binding", 2, func() {
